@@ -437,12 +437,12 @@ def d5_setter(chk, repo):
             continue
         t2 = v.term(st2.value, at=st2)
         if is_const(v.ctx, t2, True):
-            ok2 = cond_equiv(v, path_term(v, st2), v.spec("valid is None"))
+            ok2 = reached_iff(v, st2, v.spec("valid is None"))
             chk.ob("field.Field.valid.setter::all-true-iff-none", ok2, "C08.D5",
                    f"`{v.src(st2)}` is reached under {v.show(path_term(v, st2))}; expected exactly when no validity was given "
                    "(otherwise a given mask is discarded)", v.f, st2)
         elif v.eq(t2, v.spec("~np.isclose(self.norm.array, 0)")):
-            ok2 = cond_equiv(v, path_term(v, st2), v.spec("valid is not None and isinstance(valid, str) and valid == 'norm'"))
+            ok2 = reached_iff(v, st2, v.spec("valid is not None and isinstance(valid, str) and valid == 'norm'"))
             chk.ob("field.Field.valid.setter::norm-iff-keyword", ok2, "C08.D5",
                    f"the norm mask is chosen under {v.show(path_term(v, st2))}; expected exactly for the string 'norm'", v.f, st2)
     w = FV(repo, "field.Field._valid_as_field")
@@ -712,7 +712,7 @@ def d7_vtk_reader(chk, repo, rule="C08.D7"):
                f"array named '{label}'", v.f, st)
         if is_valid_reader:
             pu = path_term(v, used[nm])
-            okp = cond_equiv(v, pu, v.spec(f"{nm} is not None", at=used[nm]))
+            okp = reached_iff(v, used[nm], v.spec(f"{nm} is not None", at=used[nm]))
             chk.ob("io.vtk._from_vtk::validity-read-iff-present", okp, rule,
                    f"the validity array is read under {v.show(pu)[:160]}; expected exactly when a 'valid' array was found "
                    "(otherwise all cells are valid)", v.f, used[nm])
